@@ -285,7 +285,7 @@ def engine_core(prop, tier, seed, work):
 
 # ------------------------------------------------------------------------------- LoopCore model engines
 MODEL_CFGS = {
-    "C03": ["reuse"], "C04": [], "C10": [], "C12": ["timers"],
+    "C03": ["reuse"], "C04": ["chan"], "C10": [], "C12": ["timers"],
     "C01": ["reuse", "edge"], "C02": ["edge", "post"], "C05": ["timers"], "C06": ["reuse", "post"],
     "C07": ["edge", "timers"], "C08": ["drop", "idle"], "C09": ["post"], "C13": ["idle"],
     "C14": ["life", "synth"], "C15": ["faults", "life"], "C16": ["edge", "reuse"],
@@ -503,6 +503,8 @@ def model_schedules(kind, prop, tier, seed, work, res):
     n = (12 if kind in ("signal", "blockon") else 60) if tier == "quick" else 1500
     import random as _random
     for cfg in sims:
+        if tier == "quick" and cfg in ("chan_enum1",):
+            continue        # 4*10^5 states to enumerate: thorough tier only
         meta = os.path.join(work, "simmeta_" + cfg)
         enum = "_enum" in cfg
         if enum:
